@@ -24,9 +24,10 @@ RULE = ("op line = 2 or 3 argument-value lists in the library's flat memory layo
 ASSUMPTIONS = ["lists are well-formed flat layouts of structured argument lists (array `len` = number of cells, "
                "range header followed by [delta] start, delta and start of the same numeric type c i h f d or T/F)",
                "no infinite range (num = 0) and no NaN in the lists the order laws are stated for",
-               "range arithmetic stays inside int32/int64 (signed overflow is undefined behaviour in C)",
+               "integer range arithmetic wraps around in two's complement (fixes/C10-10-argval-math-wrap.patch); on a tree "
+               "without that patch the generator stays inside int32/int64 (signed overflow is undefined behaviour in C)",
                "default comparison options (float_tolerance 0.0)",
-               "fix patches fixes/C16-blob-prefix, C16-array-type, C16-itr-repeated-array and C01-avmessage are applied"]
+               "fix patches fixes/C16-blob-prefix, C16-array-type, C16-itr-repeated-array, C01-avmessage (and C10-10-argval-math-wrap for wrapping ranges) are applied"]
 TRUSTED = ["hand-written models RtoscModel/ArgVal/{Val,Float,Math,Itr,Cmp,Msg}.lean of arg-val-cmp.c, arg-val-itr.c, "
            "rtosc_arg_val_range_arg (arg-val-math.c) and rtosc_avmessage (arg-val.c); C01's model of rtosc_amessage",
            "memcmp/strcmp modelled by their sign; IEEE-754 round-to-nearest-even float/double arithmetic (SSE)"]
@@ -77,6 +78,17 @@ def is_nan_val(v):
     return False
 
 
+# Integer range arithmetic wraps around only with fixes/C10-10-argval-math-wrap.patch; without it the
+# same operands are signed overflow (UB, a UBSan abort).  Wrapping operands are generated only when the
+# working tree contains the patch (set in generate()).
+ALLOW_WRAP = [False]
+
+
+def wrap(v, bits):
+    m = 1 << bits
+    return (v + (m >> 1)) % m - (m >> 1)
+
+
 def range_val(delta, start, i):
     """start + i*delta as rtosc_arg_val_range_arg computes it; None = not representable
     (overflow, NaN, unsupported type)."""
@@ -91,20 +103,16 @@ def range_val(delta, start, i):
         return None
     if t in "ci":
         p = i * delta[1]
-        if not (I32[0] <= p <= I32[1]):
+        s = start[1] + wrap(p, 32)
+        if not ALLOW_WRAP[0] and not (I32[0] <= p <= I32[1] and I32[0] <= s <= I32[1]):
             return None
-        s = start[1] + p
-        if not (I32[0] <= s <= I32[1]):
-            return None
-        return (t, s)
+        return (t, wrap(s, 32))
     if t == "h":
         p = i * delta[1]
-        if not (I64[0] <= p <= I64[1]):
+        s = start[1] + wrap(p, 64)
+        if not ALLOW_WRAP[0] and not (I64[0] <= p <= I64[1] and I64[0] <= s <= I64[1]):
             return None
-        s = start[1] + p
-        if not (I64[0] <= s <= I64[1]):
-            return None
-        return (t, s)
+        return (t, wrap(s, 64))
     if t == "f":
         d, s = bits32f(delta[1]), bits32f(start[1])
         if d != d or s != s:
@@ -135,10 +143,10 @@ def sub_val(a, b):
         return None
     if t in "ci":
         d = a[1] - b[1]
-        return (t, d) if I32[0] <= d <= I32[1] else None
+        return (t, wrap(d, 32)) if (ALLOW_WRAP[0] or I32[0] <= d <= I32[1]) else None
     if t == "h":
         d = a[1] - b[1]
-        return (t, d) if I64[0] <= d <= I64[1] else None
+        return (t, wrap(d, 64)) if (ALLOW_WRAP[0] or I64[0] <= d <= I64[1]) else None
     if t == "f":
         x, y = bits32f(a[1]), bits32f(b[1])
         r = r32(x - y) if (x == x and y == y and abs(x) != float("inf") and abs(y) != float("inf")) else None
@@ -448,10 +456,16 @@ def count_stats(stats, toks):
 
 
 def generate(rng, tier, stats):
-    n = 30000 if tier == "quick" else 400000
+    n = 30000 if tier == "quick" else 1000000
+    try:
+        import os
+        src = open(os.path.join(os.environ.get("VERIF_REPO", "/repo"), "src/cpp/arg-val-math.c")).read()
+        ALLOW_WRAP[0] = "(uint32_t)lhs->val.i * (uint32_t)rhs->val.i" in src
+    except OSError:
+        ALLOW_WRAP[0] = False
     stats.update({"triples": 0, "layout_pairs": 0, "layout_pair_with_third": 0, "exhaustive_layout_lists": 0,
                   "exhaustive_layout_ops": 0, "infinite_or_nan_stream": 0, "cells": {}, "list_len_hist": {},
-                  "compressed_lists": 0})
+                  "compressed_lists": 0, "wrapping_integer_ranges_generated": ALLOW_WRAP[0]})
 
     def emit(lists, tags):
         toks = []
@@ -510,7 +524,7 @@ def generate(rng, tier, stats):
                     la = la + [("rep", 0, v)]
             elif k < 0.6 and lb:
                 v = b[-1]
-                if v[0] in "cih":
+                if v[0] in "cih" and abs(v[1]) < 100000:      # start + i*delta stays far from overflow
                     lb = lb + [("range", 0, (v[0], 1), v)]
             else:
                 nanv = rng.choice([("f", 0x7fc00000), ("d", 0x7ff8000000000000), ("f", 0xffc00001)])
